@@ -157,9 +157,22 @@ def beat_str(b):
     return f"{float(b):.3f}"
 
 
+def length_str(v):
+    """A warp length: three decimals as StepMania writes them, or - when that would not be exact and the length has a finite decimal expansion (a multiple of 1/32, say) - all its digits."""
+    v = Fraction(v)
+    if Fraction(beat_str(v)) == v:
+        return beat_str(v)
+    d = v.denominator
+    while d % 2 == 0:
+        d //= 2
+    while d % 5 == 0:
+        d //= 5
+    return dec(v) if d == 1 else beat_str(v)
+
+
 def ssc_text(tl):
     def lst(pairs, length=False):
-        return ",\n".join(f"{beat_str(b)}={beat_str(v) if length else dec(v)}" for b, v in pairs)
+        return ",\n".join(f"{beat_str(b)}={length_str(v) if length else dec(v)}" for b, v in pairs)
 
     return (
         "#VERSION:0.83;\n"
@@ -306,4 +319,11 @@ def special_timelines(thorough=False):
     add("offset of minus one hour at 175 BPM", [(F(0), F(175))], offset=F(-3600), extra=[F(1), F(2), F(100)] + far[:4])
     add("offset of plus one hour, warp far out", [(F(0), F(150))], warps=[(F(4000), F(16))], offset=F(3600), extra=far + [F(4008), F(4016), F(4017)])
     add("events far apart", [(F(0), F(120)), (F(5000), F(90))], stops=[(F(2500), F(3))], delays=[(F(7500), F("0.5"))], warps=[(F(6000), F(4))], extra=far)
+    # 4. knife edges: warp lengths exactly half-way between two ticks (1.5, 4.5, 7.5 ticks: ties go to the even tick),
+    #    BPM changes that differ only beyond double precision, scientific notation
+    for ln in (F(1, 32), F(3, 32), F(5, 32)):
+        add(f"warp of {float(ln * 48)} ticks", [(F(0), F(120))], warps=[(F(0), ln)], extra=[F(k, 48) for k in range(0, 12)])
+        add(f"warp of {float(ln * 48)} ticks at beat 1 with a stop behind it", [(F(0), F(60))], stops=[(F(1) + F(round(ln * 48), 48), F(1, 2))], warps=[(F(1), ln)],
+            extra=[F(1) + F(k, 48) for k in range(0, 12)])
+    add("BPM changes that are equal as floats", [(F(0), F(120)), (F(4), F("120.00000000000000001")), (F(8), F("119.99999999999999999"))], extra=[F(3), F(4), F(5), F(8), F(9)])
     return out
